@@ -255,6 +255,7 @@ class LoopSpec:
         self.invariants = []
         self.decreases = None
         self.modifies = None
+        self.flags = set()
 
 
 class FuncSpec:
@@ -284,6 +285,7 @@ class FuncSpec:
         self.using = []             # lemma instances: Clause text "lemma(args)"
         self.flags = set()
         self.asserts_at = []
+        self.sets_at = []           # (anchor, ghost, index expr or None, value expr, Clause)
         self.owns = []
         self.forks = []
 
@@ -400,7 +402,7 @@ def logical_lines(path, go_file):
 
 KEYWORDS = ('func', 'iface', 'assume', 'spec', 'lemma', 'axiom', 'const', 'arith', 'ghost', 'requires', 'ensures',
             'modifies', 'nonnil', 'loop', 'invariant', 'decreases', 'param', 'inline', 'assert-call', 'trusted',
-            'args', 'results', 'report', 'using', 'flag', 'pure', 'import', 'assert-at', 'owns', 'fork',
+            'args', 'results', 'report', 'using', 'flag', 'pure', 'import', 'assert-at', 'set-at', 'set-after', 'owns', 'fork',
             'deterministic', 'guarded', 'send', 'closes', 'call', 'alias', 'recv')
 
 
@@ -600,7 +602,16 @@ def parse_file(path, specs, pkgpath=None, go_file=True, allow_assume=False):
             elif kw == 'using':
                 cur_top.using.append(Clause('using', rest, None, ln, where))
             elif kw == 'flag' or kw == 'deterministic':
-                (cur if cur is not cur_top else cur_top).flags.update((rest or kw).split())
+                if cur_loop is not None and cur is cur_top and kw == 'flag':
+                    cur_loop.flags.update(rest.split())
+                else:
+                    (cur if cur is not cur_top else cur_top).flags.update((rest or kw).split())
+            elif kw in ('set-at', 'set-after'):
+                # set-at "source text of the anchored line": ghost := expr   |   ghost[index] := expr
+                ma = re.match(r'^"((?:[^"\\]|\\.)*)"\s*:\s*(\w+)\s*(?:\[(.*?)\])?\s*:=\s*(.*)$', rest, re.S)
+                if not ma:
+                    raise ParseError('set-at needs a quoted anchor and `ghost := expr`: ' + text)
+                cur_top.sets_at.append((('\x00after\x00' if kw == 'set-after' else '') + ma.group(1).replace('\\"', '"'), ma.group(2), ma.group(3), ma.group(4), Clause('set', ma.group(4), None, ln, where)))
             elif kw == 'owns':
                 cur_top.owns.append(rest)
             elif kw == 'fork':
